@@ -6,7 +6,4 @@ open Afkak.Producer Afkak.Monitor.ProducerTrace Afkak.Monitor.C09
 
 def C09_order : Prop := ∀ cfg evs, order cfg (traceOf cfg evs) = true
 def C09_one_batch : Prop := ∀ cfg evs, oneBatch cfg (traceOf cfg evs) = true
-/-- exact delays `init * factor^k` on model traces (tolerance 0) -/
-def C09_geometric : Prop := ∀ cfg evs, geometric cfg 0 (traceOf cfg evs) = true
-
 end Afkak.Props.C09
